@@ -75,6 +75,13 @@ type Unit struct {
 	bvCallees map[string]bool
 	seqElemTypes map[string]types.Type
 	axiomsDone map[string]bool
+	valParamTypes map[string]types.Type
+	opaque     map[string]bool   // predicates hidden in this unit (contract directive "opaque")
+	hiddenDefs map[string]string // their definitional axioms, added only to obligations that reveal them
+	curReveal  []string          // predicates revealed to the obligations being generated
+	lemmasUsed map[string]bool // proved lemmas instantiated as axioms in this unit
+	lemmaLimit int             // when proving lemma number k: only lemmas declared before it are available (0 = all)
+	forceMod bool
 }
 
 type splitInfo struct {
@@ -91,8 +98,19 @@ func (e *Engine) newUnit(fn *ssa.Function, ct *Contract, name string) *Unit {
 	u := &Unit{eng: e, fn: fn, ct: ct, so: newSorts(bv), comps: map[string]string{}, compInit: map[string]string{},
 		kindCount: map[string]int{}, assumed: map[string]bool{}, inlined: map[string]bool{}, called: map[string]bool{},
 		safety: true, nowrap: true, declFuns: map[string]bool{}, name: name, bitsApps: map[string]bool{}, pendingSorts: map[string]string{}, globalsUsed: map[string]bool{}, bvCallees: map[string]bool{}}
+	if ct != nil && len(ct.Opaque) > 0 {
+		u.opaque = map[string]bool{}
+		u.hiddenDefs = map[string]string{}
+		for _, p := range ct.Opaque {
+			u.opaque[p] = true
+		}
+	}
 	return u
 }
+
+// sequential: the conjuncts of the invariants at one program point are proved in the order
+// written, each assuming the earlier ones (contract directive "sequential").
+func (u *Unit) sequential() bool { return u.ct != nil && u.ct.Sequential }
 
 func (u *Unit) emit(line string) { u.lines = append(u.lines, line) }
 
@@ -173,6 +191,11 @@ func (u *Unit) oblig(kind, clause, goal string, props []string) *Oblig {
 		Goal:   goal,
 		Prefix: len(u.lines),
 		Unit:   u,
+	}
+	for _, p := range u.curReveal {
+		if d, ok := u.hiddenDefs[p]; ok {
+			o.Extra = append(o.Extra, d)
+		}
 	}
 	if u.curPos.IsValid() {
 		p := u.eng.prog.Fset.Position(u.curPos)
